@@ -183,6 +183,12 @@ def _random_rotations(rng, n):
 
 
 def orientations(spec):
+    """Expand a texture spec to an (n, 3, 3) array; entries in the denormal range are
+    flushed to zero and rounding overshoots beyond +-1 are clipped (see `_flush`)."""
+    return np.clip(_flush(_orientations(spec)), -1.0, 1.0)
+
+
+def _orientations(spec):
     fam = spec["fam"]
     if fam == "explicit":
         return np.stack([rot(r) for r in spec["rots"]])
